@@ -123,7 +123,7 @@ func checkC18(c *Check) {
 	for _, row := range rows {
 		fnName := row.typ + ".Decode"
 		fn := p.Fn(fnName)
-		if fn == nil || len(fn.Params) != 3 {
+		if fn == nil || !c.sig("C18.1 flags-row", fn, 3) {
 			continue
 		}
 		n++
@@ -307,7 +307,7 @@ func (c *Check) flagAccessors(rule string) {
 func (c *Check) flagsValidate(rule string) {
 	p := c.P
 	fn := p.Fn("PathAttrFlags.Validate")
-	if fn == nil || len(fn.Params) != 5 {
+	if fn == nil || !c.sig(rule, fn, 5) {
 		return
 	}
 	recv := paramExpr(fn, 0)
@@ -353,7 +353,7 @@ func (c *Check) flagsValidate(rule string) {
 func (c *Check) asPathSegments(ruleV, ruleL string) {
 	p := c.P
 	fn := p.Fn("ASPathAttr.Decode")
-	if fn == nil || len(fn.Params) != 3 {
+	if fn == nil || !c.sig(ruleV, fn, 3) {
 		return
 	}
 	isVal := func(e *Expr) bool {
